@@ -11,8 +11,9 @@ Open Scope Z_scope.
    same accept set, yield structurally equal values of the same exact type, and a Python TraitError
    is a compiled TraitError.  [benign] excludes exactly the three recorded findings (tuple-subclass
    instances F4, a cast alternative whose Python validate lets an exception of the value's own protocol escape — the residue of F17 after its repair,
-   Instance(C, allow_none=False) with None an instance of C F18) and asks the class table not to
-   declare subclasses of bool. *)
+   Instance(C, allow_none=False) with None an instance of C F18, adapt='default' inside a compound
+   F21), asks the class table not to declare subclasses of bool, and keeps transparent proxies away
+   from the validators whose compiled form is an exact type check. *)
 Theorem fast_eq_slow :
   forall E d v, wf_desc d = true -> c03_scope d = true -> benign E d v = true ->
     agrees (c_validate E d v) (py_validate E d v) = true.
@@ -32,6 +33,15 @@ Proof.
   exact refuted_cast_escape.
 Qed.
 Print Assumptions fast_eq_slow_refuted_cast_escape.
+
+Theorem fast_eq_slow_refuted_adapt_default :   (* F21 *)
+  exists E d v, wf_desc d = true /\ c03_scope d = true /\ agrees (c_validate E d v) (py_validate E d v) = false.
+Proof.
+  exists (mkEnv [(3, 3); (6, 6); (100, 100)] 110 [(1, PInt 5, PStr [53])] []),
+         (DCompound [DAdapt 100 2 false (PStr [78; 111; 110; 101]); DCast CTStr]), (PInt 5).
+  exact refuted_adapt_default.
+Qed.
+Print Assumptions fast_eq_slow_refuted_adapt_default.
 
 Theorem fast_eq_slow_refuted_none_instance :
   exists E d v, wf_desc d = true /\ c03_scope d = true /\ agrees (c_validate E d v) (py_validate E d v) = false.
